@@ -281,8 +281,6 @@ pub open spec fn exists_upto(ds: DS, db: int, parts: Seq<RespFrame>, n: int) -> 
 {
     if n <= 1 { 0 } else { exists_upto(ds, db, parts, n - 1) + (match arg(parts, n - 1) { Some(k) => if ds.contains_key((db, k)) { 1int } else { 0int }, None => 0int }) }
 }
-/// remaining time in whole seconds, rounded up; -2 only when nothing remains
-pub open spec fn ttl_seconds(n: int) -> int { if n == 0 { -2 } else if n % 1_000_000_000 == 0 { n / 1_000_000_000 } else { n / 1_000_000_000 + 1 } }
 
 } // verus!
 fn main() {}
